@@ -165,6 +165,8 @@ pub fn payload(seed: u64, e: usize, idx: u32, ch: u8, mode: u8, size: usize) -> 
 
 #[derive(Clone, Debug)]
 pub struct Sub {
+    /// position in the global event order of the run
+    pub seq: u64,
     pub idx: u32,
     pub tick: u32,
     /// number of step() calls the sending endpoint had made when the packet was submitted
@@ -184,6 +186,7 @@ pub struct Deliv {
 
 #[derive(Clone, Debug)]
 pub struct WireRec {
+    pub seq: u64,
     pub t_us: u64,
     pub tick: u32,
     /// number of step() calls the sender had made when the frame was emitted
@@ -195,6 +198,7 @@ pub struct WireRec {
 
 #[derive(Clone, Debug)]
 pub struct HandledRec {
+    pub seq: u64,
     pub t_us: u64,
     /// number of step() calls the receiving endpoint had made before handling this frame
     pub epoch: u32,
@@ -206,6 +210,7 @@ pub struct HandledRec {
 
 #[derive(Clone, Debug)]
 pub struct StepStat {
+    pub seq: u64,
     pub t_us: u64,
     pub tick: u32,
     pub epoch: u32,
@@ -233,6 +238,8 @@ pub struct Trace {
     pub handled: [Vec<HandledRec>; 2],
     /// snapshot after every endpoint step and at the end of every tick
     pub stats: [Vec<StepStat>; 2],
+    /// (event seq, time) of every step() call of endpoint e
+    pub steps: [Vec<(u64, u64)>; 2],
     pub end_us: u64,
     pub tail_start_us: Option<u64>,
     pub tail_quiescent: bool,
@@ -306,6 +313,7 @@ pub struct SimPair {
     in_flight: [BinaryHeap<InFlight>; 2],
     last_arrival_us: [u64; 2],
     seq: u64,
+    ev: u64,
     next_idx: [u32; 2],
 }
 
@@ -331,8 +339,14 @@ impl SimPair {
             in_flight: [BinaryHeap::new(), BinaryHeap::new()],
             last_arrival_us: [0, 0],
             seq: 0,
+            ev: 0,
             next_idx: [0, 0],
         }
+    }
+
+    fn next_ev(&mut self) -> u64 {
+        self.ev += 1;
+        self.ev
     }
 
     pub fn set_latency(&mut self, link: usize, latency_us: u32) {
@@ -394,10 +408,11 @@ impl SimPair {
                     push(self, base, data.into_boxed_slice(), changed);
                 }
             }
+            let evs = self.next_ev();
             if self.record_wire {
-                self.trace.wire[from].push(WireRec { t_us: self.now_us, tick: self.tick_no, epoch: self.epoch[from], bytes, fate, fair: self.fair });
+                self.trace.wire[from].push(WireRec { seq: evs, t_us: self.now_us, tick: self.tick_no, epoch: self.epoch[from], bytes, fate, fair: self.fair });
             } else {
-                self.trace.wire[from].push(WireRec { t_us: self.now_us, tick: self.tick_no, epoch: self.epoch[from], bytes: Box::new([]), fate, fair: self.fair });
+                self.trace.wire[from].push(WireRec { seq: evs, t_us: self.now_us, tick: self.tick_no, epoch: self.epoch[from], bytes: Box::new([]), fate, fair: self.fair });
             }
         }
     }
@@ -435,7 +450,8 @@ impl SimPair {
             }
             let f = self.in_flight[e].pop().unwrap();
             let accepted = self.handle_bytes(e, &f.bytes);
-            self.trace.handled[e].push(HandledRec { t_us: self.now_us, epoch: self.epoch[e], wire_idx: f.wire_idx, corrupted: f.corrupted, accepted });
+            let evs = self.next_ev();
+            self.trace.handled[e].push(HandledRec { seq: evs, t_us: self.now_us, epoch: self.epoch[e], wire_idx: f.wire_idx, corrupted: f.corrupted, accepted });
         }
     }
 
@@ -443,7 +459,9 @@ impl SimPair {
         if !self.record_stats {
             return;
         }
+        let evs = self.next_ev();
         let st = StepStat {
+            seq: evs,
             t_us: self.now_us,
             tick: self.tick_no,
             epoch: self.epoch[e],
@@ -461,6 +479,8 @@ impl SimPair {
         self.deliver_arrived(e);
         self.hc[e].step();
         self.epoch[e] += 1;
+        let evs = self.next_ev();
+        self.trace.steps[e].push((evs, self.now_us));
         let mut ps = CollectPackets { packets: Vec::new() };
         self.hc[e].receive(&mut ps);
         for p in ps.packets {
@@ -473,7 +493,8 @@ impl SimPair {
         let idx = self.next_idx[e];
         self.next_idx[e] += 1;
         let data = payload(self.seed, e, idx, s.ch, s.mode, s.size as usize);
-        self.trace.subs[e].push(Sub { idx, tick: self.tick_no, epoch: self.epoch[e], t_us: self.now_us, ch: s.ch, mode: s.mode, size: s.size });
+        let evs = self.next_ev();
+        self.trace.subs[e].push(Sub { seq: evs, idx, tick: self.tick_no, epoch: self.epoch[e], t_us: self.now_us, ch: s.ch, mode: s.mode, size: s.size });
         self.hc[e].send(data.into_boxed_slice(), s.ch, mode_of(s.mode));
         idx
     }
